@@ -942,6 +942,44 @@ theorem copy_resets_license_counterexample :
       ∃ s'', Py.pickleSig s = .ok s'' ∧ s''.license = "CC0" :=
   ⟨_, _, rfl, rfl, rfl, rfl, _, rfl, rfl⟩
 
+/- FULL STATEMENT (not proved / false): `copy_unchanged` above, for a signature holding SEVERAL sketches
+   (`SourmashSignature.from_params(ComputeParameters(ksizes=[21, 31]))`; saving it writes both sketches into
+   one record): `__copy__` / `to_mutable` / `to_frozen` / `__reduce__` read `self.minhash`, i.e.
+   `signature_first_mh`, so every sketch but the first is dropped.  Finding C09.6. -/
+theorem copy_drops_sketches_counterexample :
+    let s := Py.fromParams [21, 31] 1 0 42 false
+    s.sketches.length = 2 ∧ (encodeDoc [s]).map (fun r => match r.signatures with | .val l => l.length | _ => 0) = [2] ∧
+    (Py.copySig s).toOption.map (fun c => c.sketches.length) = some 1 ∧
+    (Py.pickleSig s).toOption.map (fun c => c.sketches.length) = some 1 := by
+  decide
+
+/-- ... while saving and loading such a signature keeps every sketch (one signature per sketch) -/
+theorem multi_sketch_file_roundtrip :
+    ((decodeDoc (encodeDoc [Py.fromParams [21, 31] 1 0 42 false])).toOption.map
+      (fun l => (loadSignatures none none l).map (fun s => s.sketches.map (fun k => k.mh.ksize)))) = some [[21], [31]] := by
+  decide
+
+/- FULL STATEMENT (not proved / false):
+     theorem text_file_object (i : Py.LoadIn) k m raise : Py.loadFromTextTemp i k m raise = Py.loadFromJson i k m raise
+   (reading back "via file object": a text-mode file object is as good as a binary one.)  False while
+   `Gen.textWrapperDropped = true`: `load_signatures_from_json(open(path))` rebinds `data = data.buffer`,
+   the text wrapper -- to which nobody else refers -- is finalised, which closes the buffer, and the read
+   raises `ValueError: read of closed file` (without `do_raise`: an empty result).  It holds when the caller
+   keeps the file object alive (`with open(path) as fp:`), which is `Py.loadFromJson`.  Finding C09.8. -/
+theorem text_file_object_counterexample (h : Gen.textWrapperDropped = true) (i : Py.LoadIn)
+    (k : Option Nat) (m : Option String) :
+    Py.loadFromTextTemp i k m true = .error .value ∧ Py.loadFromTextTemp i k m false = .ok [] := by
+  simp [Py.loadFromTextTemp, h]
+
+/-- `==` on signatures: class, email, hash_function, filename, name and the md5 of the first sketch -/
+theorem sig_eq_after_roundtrip {s : Sig} {sk : Sk} (hsk : s.sketches = [sk]) (t : Bool) (hc : sk.CacheOK) :
+    Py.sigEq s (s.afterLoad t) = .ok true := by
+  have ho := Sk.obs_afterLoad t sk (fun _ => hc)
+  have hmd : (sk.afterLoad t).md5sum.2 = sk.md5sum.2 := by
+    have h3 : (sk.afterLoad t).obs.2 = sk.obs.2 := by rw [ho]
+    exact h3
+  simp [Py.sigEq, Sig.afterLoad, hsk, hmd]
+
 /-! ### the translator's tables are the ones the model was written against -/
 
 theorem written_fields :
